@@ -75,6 +75,7 @@ class MinMaxAggregator:
 
     def __init__(self, prg: list[AST], input_predicates: list[Predicate]):
         self.unique_names = UniqueNames(prg, input_predicates)
+        self.input_predicates = input_predicates
         self.rule_dependency = RuleDependency(prg)
         self.domain_predicates = DomainPredicates(self.unique_names, prg)
         # list of ({AggregateFunction.Max, AggregateFunction.Min}, Translation, index)
@@ -97,6 +98,8 @@ class MinMaxAggregator:
         ):
             return
         symbol = head.atom.symbol
+        if Predicate(symbol.name, len(symbol.arguments)) in self.input_predicates:
+            return  # the instance may add further atoms of this predicate
         for arg in symbol.arguments:
             if arg.ast_type not in {ASTType.Variable, ASTType.SymbolicTerm}:
                 return  # nocoverage
